@@ -177,8 +177,13 @@ class TokIO:
     def read(self, n=-1):
         if self.pos >= len(self.toks):
             return b""
+        if n is None or n < 0:
+            # read to the end (io.BytesIO.read()): everything from the current position on
+            rest = TokBytes(self.toks[self.pos:])
+            self.pos = len(self.toks)
+            return rest
         kind, v = self.toks[self.pos]
-        if kind != "raw" or n is None or n < 0:
+        if kind != "raw":
             raise Misaligned(f"raw read of {n} bytes at a {kind} token")
         if len(v) != n:
             if self.pos == len(self.toks) - 1 and len(v) < n and isinstance(v, bytes):
